@@ -125,7 +125,7 @@ impl PathSelector {
     ///  Returns true if pattern can match absolute paths
     fn is_absolute(pattern: &Pattern) -> bool {
         let s = pattern.to_string();
-        s.starts_with(".*") || Path::from(s).is_absolute()
+        s.starts_with(".*") || s.starts_with("(?s:.*)") || Path::from(s).is_absolute()
     }
 }
 
